@@ -69,7 +69,7 @@ def all_trees(nops, leaves=('A', 'B')):
 
 def eval_obligation(chk, prop, obs):
     """`<TagOperation as tag::Ext>::eval` (and whatever it calls) on MIR for EVERY expression tree with <= 3 operator nodes
-    (and / or / not over two tag names; 1112 trees) over a tag list of two symbolic strings: the result equals the
+    (and / or / not over two tag names; 1112 trees) over tag lists of 0, 1 and 2 symbolic strings: the result equals the
     Boolean formula for every truth assignment of the four tag equalities (decided by the solver on every path)."""
     prog = chk.prog
     t = prog.tables
@@ -80,18 +80,17 @@ def eval_obligation(chk, prop, obs):
     ix_tag = {v[0]: i for i, v in enumerate(vs)}
     maxops = 3
     shapes = [s for k in range(maxops + 1) for s in all_trees(k)]
-    o = chk.add(Obligation('%s.eval=boolean-formula' % prop, 'every and/or/not tree with <= %d operator nodes over 2 tag names (%d trees), tag list of 2 symbolic strings' % (maxops, len(shapes))))
+    o = chk.add(Obligation('%s.eval=boolean-formula' % prop, 'every and/or/not tree with <= %d operator nodes over 2 tag names (%d trees), tag lists of 0, 1, 2 symbolic strings' % (maxops, len(shapes))))
     o.verdict = 'holds'
     obs['eval=boolean-formula'] = o
-    tags = ['t0', 't1']
-    ex, M = chk.new_exec(loop_bound=12, max_paths=200000)
-    for shape in shapes:
-        def run(ex_, shape=shape):
+    ex, M = chk.new_exec(loop_bound=12, max_paths=400000)
+    for tags, shape in [(tg, sh_) for tg in ([], ['t0'], ['t0', 't1']) for sh_ in shapes]:
+        def run(ex_, shape=shape, tags=tags):
             tv = Ref(Cell(Obj('vec', items=tuple(Obj('symstr', name=n) for n in tags), ty='Vec<String>'), name='tags'), ())
             tree = Ref(Cell(tag_tree(ix_tag, shape), name='expr'), ())
             return ex_.call_body(ev[0], [tree, tv])
 
-        def on_end(ex_, rec, shape=shape):
+        def on_end(ex_, rec, shape=shape, tags=tags):
             kind, r, pc, dec = rec
             o.paths += 1
             if kind != 'ok':
@@ -101,13 +100,17 @@ def eval_obligation(chk, prop, obs):
                 return
             o.queries += 1
             want = tree_sem(shape, tags)
+            if z3.is_bool(r) is False:
+                r = ex_.materialize(r, 'bool')
             if ex_.check(r != want) and o.verdict != 'violated':
                 m = ex_.solver.model()
                 o.verdict = 'violated'
                 o.model = {'expression': repr(shape), 'tag equalities': {str(d): str(m[d]) for d in m.decls()}, 'eval': str(m.eval(r, model_completion=True)),
                            'formula': str(m.eval(want, model_completion=True))}
-                o.detail = 'eval(%s) differs from the Boolean formula' % (shape,)
+                o.detail = 'eval(%s) over a tag list of %d tags differs from the Boolean formula' % (shape, len(tags))
         ex.explore(run, on_end)
+    if o.verdict == 'violated' and prop != 'C15':
+        confirm(chk, [o])          # the same evaluator filters scenarios: the native filter grid shows the deviation
 
 
 def body(chk):
@@ -287,6 +290,10 @@ def body(chk):
                 o.detail = 'feature fields other than the scenario lists changed'
         ex.explore(run, on_end)
     eval_obligation(chk, 'C15', obs)
+    # the tags a filter sees on a scenario that came out of an outline are the ones expansion gave it (outline's + its own
+    # Examples block's): decided on expand_scenario / expand_examples
+    from checks import c16
+    c16.obligations(chk, 'C15')
     bad = [o for o in obs.values() if o.verdict == 'violated']
     if bad:
         confirm(chk, bad)
@@ -314,7 +321,7 @@ def confirm(chk, bad):
     from checks import replay
     d = os.path.join(common.EVID, 'replay')
     os.makedirs(d, exist_ok=True)
-    path = os.path.join(d, 'C15-filter.script')
+    path = os.path.join(d, '%s-filter.script' % chk.prop)
     res, out = replay.run_script('mode filter\n', path, timeout=300)
     chk.replays += 1
     exprs = {'tags1': lambda t: 'smoke' in t, 'tags2': lambda t: 'wip' not in t, 'tags3': lambda t: 'smoke' in t and 'wip' not in t,
